@@ -1,8 +1,10 @@
 /-
 C08 — driver.  One trace line = one unmarshal:
   u key=<k> fs=<0/1> fa=<0/1> T <type tokens> I <input tokens>  =>  ok <value dump> | err <class> | PANIC …
-Correspondence: the model's verdict and value equal the implementation's.  Monitor: an accepted result must
-satisfy `Spec.satisfies` (evaluated on the implementation's own value); a panic is a violation.
+Correspondence: the model's verdict and value equal the implementation's.  Monitors (on the implementation's own
+observation): an accepted result must satisfy `Spec.satisfies`; an input that is `Spec.complete` (all declared
+constraints met with correctly typed values) must be accepted; a panic is a violation.  Where the model answers
+`outside` (inherit, dotted keys, string-encoded containers) only the panic monitor applies.
 -/
 import GoZero.Base.Trace
 import GoZero.C08.Spec
@@ -209,7 +211,7 @@ def tyFeatures : Ty → List String
   | .prim (.uint _) => ["kind-uint"]
   | .prim (.float _) => ["kind-float"]
   | .prim .string => ["kind-string"]
-  | .ptr t => "ptr" :: tyFeatures t
+  | .ptr t => (if t.isContainer then "ptr-to-container" else "ptr") :: tyFeatures t
   | .slice t => "slice" :: tyFeatures t
   | .map t => "map" :: tyFeatures t
   | .struct fs => "struct" :: fieldsFeatures fs
@@ -229,6 +231,8 @@ def fieldsFeatures : Fields → List String
          ++ (if o.range.isSome then ["opt-range"] else [])
          ++ (if o.options.isEmpty then [] else ["opt-options"])
          ++ (if o.fromString then ["opt-string"] else [])
+         ++ (if o.inherit then ["opt-inherit"] else [])
+         ++ (if o.envVar.isEmpty then [] else ["opt-env(unset)"])
          ++ (if o.optional && !o.optionalDep.isEmpty && o.range.isSome then ["opt-dep+range"] else []))
     ++ tyFeatures t ++ fieldsFeatures rest
 end
@@ -283,30 +287,41 @@ def runLine (r : Report) (sec : Nat) (l : Line) : Report :=
     | .struct fs, .obj m => for f in dedup (inputFeatures op.cfg.repaired fs m) do r := r.addCover f
     | _, _ => r := r.addCover "in-toplevel-not-object"
     let impl := joinSp l.obs
+    let cmpl := Spec.complete op.cfg op.ty op.input
+    let outside := match res with | .error .outside => true | _ => false
+    if outside then r := r.addCover "model-outside(panic-monitor-only)"
     match l.obs with
     | "ok" :: vt =>
       match parseValT (vt.length + 1) vt with
       | some (v, []) =>
-        -- monitor: the property on the implementation's own result
-        if !Spec.satisfies op.cfg op.ty op.input v then
-          r := r.violation sec l.idx s!"accepted-but-constraints-violated op=[{joinSp l.op}] impl=[{impl}]"
-        match res with
-        | .ok mv => if !valAgree mv v then r := r.mismatch sec l.idx "ok(other value)" impl
-        | .error e => r := r.mismatch sec l.idx s!"err {e.name}" impl
+        if !outside then
+          r := r.addCover (if cmpl then "accepted-and-complete" else "accepted-not-complete")
+          -- monitor: the property on the implementation's own result
+          if !Spec.satisfies op.cfg op.ty op.input v then
+            r := r.violation sec l.idx s!"accepted-but-constraints-violated op=[{joinSp l.op}] impl=[{impl}]"
+          match res with
+          | .ok mv => if !valAgree mv v then r := r.mismatch sec l.idx "ok(other value)" impl
+          | .error e => r := r.mismatch sec l.idx s!"err {e.name}" impl
       | _ => r := r.mismatch sec l.idx "unparsable-value" impl
     | ["err", cls] =>
-      match res with
-      | .ok _ => r := r.mismatch sec l.idx "ok" impl
-      | .error e =>
-        if e.name ≠ cls then
-          -- Go iterates maps in random order: when several entries of a map fail, which error is reported
-          -- first is not determined; the verdict (reject) is compared, the class is not
-          if (tyFeatures op.ty).contains "map" then r := r.addCover "map-order-ambiguous-error"
-          else r := r.mismatch sec l.idx s!"err {e.name}" impl
+      if !outside then
+        -- monitor: the converse direction of the property
+        if cmpl then
+          r := r.violation sec l.idx s!"rejected-but-constraints-met op=[{joinSp l.op}] impl=[{impl}]"
+        else r := r.addCover "rejected-not-complete"
+        match res with
+        | .ok _ => r := r.mismatch sec l.idx "ok" impl
+        | .error e =>
+          if e.name ≠ cls then
+            -- Go iterates maps in random order: when several entries of a map fail, which error is reported
+            -- first is not determined; the verdict (reject) is compared, the class is not
+            if (tyFeatures op.ty).contains "map" then r := r.addCover "map-order-ambiguous-error"
+            else r := r.mismatch sec l.idx s!"err {e.name}" impl
     | "PANIC" :: _ =>
       r := r.violation sec l.idx s!"panic op=[{joinSp l.op}] impl=[{impl}]"
       match res with
       | .error .panic => pure ()
+      | .error .outside => pure ()
       | _ => r := r.mismatch sec l.idx (resultLabel res) impl
     | _ => r := r.mismatch sec l.idx "unparsable-observation" impl
     return r
